@@ -1436,7 +1436,11 @@ class C03(core.Check):
         if "total_expansion" in g:
             T = g["total_expansion"]
             s = g["start_size"] if "start_size" in g else g["end_size"] / T
-            return s <= L * (1 - m) and s * T <= L * (1 - m) and s >= 1e-4 * L
+            # like the (start, end) pair below: first and last cell together must leave room on the edge.  At an exact
+            # two-cell fit (s + s*T == L to the ulp) with T near 1 the bracket [0, L/d_min] of brentq ends at the root and the
+            # search can run into the pole of fcnt at cnt == 1 (OverflowError, measured up to |T-1| ~ 5e-4): not "clearly
+            # realisable, well inside every limit"; a grading returned there is still judged like any other
+            return s <= L * (1 - m) and s * T <= L * (1 - m) and s >= 1e-4 * L and s + s * T <= L * (1 - m)
         s, e = g["start_size"], g["end_size"]
         return s + e <= L * (1 - m)
 
